@@ -7,6 +7,13 @@ props = [json.loads(l) for l in open(os.path.join(HERE, "properties.jsonl"))]
 
 # id -> (level, technique, level text, level note, design ref)
 CLAIMS = {
+    "C15": ("model_checking",
+            "sequential TLA+ specification of the byte stores (MemIO) model-checked by TLC + operation sequences recorded from the real types validated by TLC",
+            "TLC exhaustively explores operation sequences of the MemIO specification over boundary lengths/addresses with "
+            "its invariants; random and boundary-biased sequences of Get/Set/Put/In/Out/Clone/Clear/Equal over all slice "
+            "lengths are executed on the real DumbMemory/DumbIO/MapMemory values and every result is validated by TLC.",
+            "Random exploration of histories; DumbMemory.Put only inside the slice (stated precondition).",
+            "DESIGN.md section 3 C15"),
     "C13": ("model_checking",
             "PlusCal/TLA+ goroutine model of Run's cancellation hand-off (TLC: safety + liveness, negative variant) + -race stress with goroutine accounting + hook-gated promptness + TLC validation of cancelled Run events",
             "TLC exhaustively checks RunCancel.tla (every interleaving of caller, watcher and runner) for the safety and "
